@@ -7,6 +7,7 @@
    fixpoints ([for_loop], convertible with them). *)
 From Coq Require Import Lia ZifyN ZifyNat ZifyBool.
 From CP Require Import Bytes Runtime TimePb GoFun BytesLemmas RuntimeProofs TimePbProofs.
+From CP Require UnmarshalProgProofs.
 Ltac Zify.zify_post_hook ::= Z.div_mod_to_equations.
 Local Open Scope Z_scope.
 
@@ -481,4 +482,294 @@ Proof.
   pose proof (overflowpanic_prog_correct _ _ (d <? 0) lf dp T1 T2) as HO. unfold run_fun in HO. cbn [Nat.add] in HO.
   unfold ts_fields at 1. rewrite ts_ptr_fold.
   rewrite HO. fold i. brk; reflexivity.
+Qed.
+
+(* ================================================================ runtime.go: Skip *)
+(* ---- bit-level facts: the signed reading of a 64-bit pattern commutes with | *)
+Lemma s64_testbit a i : 0 <= i -> Z.testbit (s64 a) i = N.testbit a (if i <? 64 then Z.to_N i else 63%N).
+Proof.
+  intro Hi. unfold s64. cbv zeta.
+  assert (Hy : (a mod two64 < two64)%N) by (apply N.mod_upper_bound; discriminate).
+  assert (Hlow : forall j, (j < 64)%N -> N.testbit (a mod two64) j = N.testbit a j).
+  { intros j Hj. change two64 with (2 ^ 64)%N. apply N.mod_pow2_bits_low. exact Hj. }
+  assert (Hhigh : forall j, (64 <= j)%N -> N.testbit (a mod two64) j = false).
+  { intros j Hj. change two64 with (2 ^ 64)%N. apply N.mod_pow2_bits_high. exact Hj. }
+  set (y := (a mod two64)%N) in *.
+  destruct (N.ltb_spec y two63) as [Hlt|Hge].
+  - rewrite Z.testbit_of_N' by exact Hi.
+    destruct (Z.ltb_spec i 64) as [H64|H64].
+    + apply Hlow. lia.
+    + rewrite Hhigh by lia. rewrite <- (Hlow 63%N) by lia.
+      rewrite <- (N.mod_small y (2 ^ 63)%N) by exact Hlt. symmetry. apply N.mod_pow2_bits_high. lia.
+  - change (Z.of_N two64) with 18446744073709551616. unfold two63, two64 in *.
+    destruct (Z.ltb_spec i 64) as [H64|H64].
+    + rewrite <- (Z.mod_pow2_bits_low _ 64) by lia. change (2 ^ 64) with 18446744073709551616.
+      replace ((Z.of_N y - 18446744073709551616) mod 18446744073709551616) with (Z.of_N y) by lia.
+      rewrite Z.testbit_of_N' by exact Hi. apply Hlow. lia.
+    + rewrite Z.bits_above_log2_neg.
+      * rewrite <- (Hlow 63%N) by lia. symmetry. apply N.testbit_true.
+        change (2 ^ 63)%N with 9223372036854775808%N.
+        assert (y / 9223372036854775808 = 1)%N by (symmetry; apply N.div_unique with (r := (y - 9223372036854775808)%N); lia).
+        rewrite H. reflexivity.
+      * lia.
+      * set (m := Z.pred (- (Z.of_N y - 18446744073709551616))).
+        destruct (Z.eq_dec m 0) as [->|Hm0]; [cbn; lia|].
+        assert (Z.log2 m < 63); [|lia]. apply Z.log2_lt_pow2; [unfold m; lia|]. change (2 ^ 63) with 9223372036854775808. unfold m. lia.
+Qed.
+Lemma s64_lor a b : Z.lor (s64 a) (s64 b) = s64 (N.lor a b).
+Proof.
+  apply Z.bits_inj'. intros i Hi. rewrite Z.lor_spec, !s64_testbit by exact Hi. rewrite N.lor_spec. reflexivity.
+Qed.
+Lemma wrap64_ofN x : wrap64 (Z.of_N x) = s64 x.
+Proof. unfold wrap64. rewrite UnmarshalProgProofs.z2u64_ofN. apply UnmarshalProgProofs.s64_u64. Qed.
+Lemma u64_lor a b : N.lor (u64 a) (u64 b) = u64 (N.lor a b).
+Proof. unfold u64. change two64 with (2 ^ 64)%N. symmetry. apply UnmarshalProgProofs.lor_mod_pow2. Qed.
+Lemma norm_uint64_ofN x : ity_norm TUint64 (Z.of_N x) = Z.of_N (u64 x).
+Proof. rewrite norm_uint64. unfold u64. rewrite N2Z.inj_mod. reflexivity. Qed.
+Lemma norm_uint_ofN x : ity_norm TUint (Z.of_N x) = Z.of_N (u64 x).
+Proof. exact (norm_uint64_ofN x). Qed.
+Lemma u64_small x : (x < two64)%N -> u64 x = x.
+Proof. intro H. unfold u64. apply N.mod_small. exact H. Qed.
+Lemma shl_z_small x c : 0 <= c < 64 -> shl_z 64 x c = Z.shiftl x c.
+Proof. intro H. unfold shl_z. destruct (Z.leb_spec 64 c); [lia|reflexivity]. Qed.
+
+(* wire |= (uint64(b) & 0x7F) << shift    on the pattern *)
+Lemma wire_update acc b shift : (shift < 64)%N ->
+  Z.lor (Z.of_N (u64 acc)) (ity_norm TUint64 (shl_z 64 (Z.land (ity_norm TUint64 (Z.of_N (b2n b))) 127) (Z.of_N shift)))
+  = Z.of_N (u64 (N.lor acc (N.shiftl (N.land (b2n b) 127) shift))).
+Proof.
+  intro Hs. pose proof (b2n_lt b) as Hb.
+  rewrite norm_uint64_ofN, (u64_small (b2n b)) by (unfold two64; lia).
+  change 127 with (Z.of_N 127). rewrite <- ofN_land. rewrite shl_z_small by lia. rewrite <- ofN_shiftl.
+  rewrite norm_uint64_ofN. rewrite <- ofN_lor, u64_lor. reflexivity.
+Qed.
+(* length |= (int(b) & 0x7F) << shift *)
+Lemma length_update acc b shift : (shift < 64)%N ->
+  Z.lor (s64 acc) (ity_norm TInt (shl_z 64 (Z.land (ity_norm TInt (Z.of_N (b2n b))) 127) (Z.of_N shift)))
+  = s64 (N.lor acc (N.shiftl (N.land (b2n b) 127) shift)).
+Proof.
+  intro Hs. pose proof (b2n_lt b) as Hb.
+  rewrite (norm_int (Z.of_N (b2n b))), wrap64_id' by lia.
+  change 127 with (Z.of_N 127). rewrite <- ofN_land. rewrite shl_z_small by lia. rewrite <- ofN_shiftl.
+  rewrite norm_int, wrap64_ofN. apply s64_lor.
+Qed.
+
+(* ---- the pieces of the program *)
+Local Open Scope gname_scope.
+Definition sk_cond : gexpr := ExBin BLt (ExVar "iNdEx") (ExVar "l").
+Definition sk_post : list gstmt := [StOpAssign BAdd (LvVar "shift") (ExConst 7)].
+Definition sk_switch : gstmt :=
+  StSwitch (ExVar "wireType")
+    [([ExConst 0],
+      [skip_varint_for
+         [StInc (LvVar "iNdEx");
+          StIf (ExBin BLt (ExIndex (ExVar "dAtA") (ExBin BSub (ExVar "iNdEx") (ExConst 1))) (ExConst 128)) [StBreak] []]]);
+     ([ExConst 1], [StOpAssign BAdd (LvVar "iNdEx") (ExConst 8)]);
+     ([ExConst 2],
+      [StVar "length" (GoInt TInt);
+       skip_varint_for (skip_accumulate "length" TInt);
+       StIf (ExBin BLt (ExVar "length") (ExConst 0)) [StReturn [ExConst 0; ExVar "ErrInvalidLength"]] [];
+       StOpAssign BAdd (LvVar "iNdEx") (ExVar "length")]);
+     ([ExConst 3], [StInc (LvVar "depth")]);
+     ([ExConst 4],
+      [StIf (ExBin BEq (ExVar "depth") (ExConst 0)) [StReturn [ExConst 0; ExVar "ErrUnexpectedEndOfGroup"]] [];
+       StDec (LvVar "depth")]);
+     ([ExConst 5], [StOpAssign BAdd (LvVar "iNdEx") (ExConst 4)])]
+    (Some [StReturn [ExConst 0; ExPkgCall "fmt" "Errorf" [ExStr "proto: illegal wireType %d"; ExVar "wireType"]]]).
+Definition sk_epi : list gstmt :=
+  [StIf (ExBin BLt (ExVar "iNdEx") (ExConst 0)) [StReturn [ExConst 0; ExVar "ErrInvalidLength"]] [];
+   StIf (ExBin BEq (ExVar "depth") (ExConst 0)) [StReturn [ExVar "iNdEx"; ExNil]] []].
+Definition sk_body : list gstmt :=
+  StVar "wire" (GoInt TUint64)
+  :: skip_varint_for (skip_accumulate "wire" TUint64)
+  :: StDefine "wireType" (ExConv TInt (ExBin BAnd (ExVar "wire") (ExConst 7)))
+  :: sk_switch
+  :: sk_epi.
+Lemma canon_Skip_body :
+  fn_body canon_Skip =
+  [StDefine "l" (ExLen (ExVar "dAtA")); StDefine "iNdEx" (ExConst 0); StDefine "depth" (ExConst 0);
+   StFor [] (Some sk_cond) [] sk_body;
+   StReturn [ExConst 0; ExQual "io" "ErrUnexpectedEOF"]].
+Proof. reflexivity. Qed.
+
+Definition sk_env (bs : list byte) (idx depth : Z) : goenv :=
+  [("depth", intv depth); ("iNdEx", intv idx); ("l", intv (Z.of_nat (length bs)));
+   ("n", GvInt TInt 0); ("err", GvErr None); ("dAtA", GvBytes bs)].
+Local Close Scope gname_scope.
+
+Notation G := (genv_of canon_runtime).
+Lemma G_overflow : go_get "ErrIntOverflow" G = Some (GvErr (Some "proto: integer overflow"%gname)).
+Proof. vm_compute. reflexivity. Qed.
+Lemma G_invalid : go_get "ErrInvalidLength" G = Some (GvErr (Some "proto: negative length found during unmarshaling"%gname)).
+Proof. vm_compute. reflexivity. Qed.
+Lemma G_endgroup : go_get "ErrUnexpectedEndOfGroup" G = Some (GvErr (Some "proto: unexpected end of group"%gname)).
+Proof. vm_compute. reflexivity. Qed.
+Lemma G_none x : go_get x G = None ->  go_get x G = None.
+Proof. exact (fun H => H). Qed.
+
+(* a return of (0, some error) / of (n, nil), the input unchanged *)
+Definition is_err_ret (bs : list byte) (r : stres) : Prop :=
+  exists e en, r = SrRet [GvConst 0; GvErr (Some e)] en /\ final_params 1 en = [GvBytes bs].
+Definition is_ok_ret (bs : list byte) (m : Z) (r : stres) : Prop :=
+  exists en, r = SrRet [GvInt TInt m; GvNil] en /\ final_params 1 en = [GvBytes bs].
+
+(* ---- suffix by index *)
+Lemma skipn_cons_nth (bs : list byte) i b rest :
+  0 <= i -> skipn (Z.to_nat i) bs = b :: rest ->
+  i < Z.of_nat (length bs) /\ nth (Z.to_nat i) bs x00 = b /\ skipn (Z.to_nat (i + 1)) bs = rest.
+Proof.
+  intros Hi H. assert (Hl : (Z.to_nat i < length bs)%nat).
+  { destruct (Nat.lt_ge_cases (Z.to_nat i) (length bs)) as [Hlt|Hge]; [exact Hlt|]. rewrite skipn_all2 in H by exact Hge. discriminate. }
+  split; [lia|]. split.
+  - rewrite <- (firstn_skipn (Z.to_nat i) bs) at 1. rewrite app_nth2 by (rewrite firstn_length; lia).
+    rewrite firstn_length, Nat.min_l by lia. rewrite Nat.sub_diag, H. reflexivity.
+  - replace (Z.to_nat (i + 1)) with (Z.to_nat i + 1)%nat by lia. rewrite <- skipn_skipn', H. reflexivity.
+Qed.
+Lemma bytes_get_in (bs : list byte) i b rest :
+  0 <= i -> skipn (Z.to_nat i) bs = b :: rest -> bytes_get bs i = ErOk (GvInt TUint8 (Z.of_N (b2n b))).
+Proof.
+  intros Hi H. destruct (skipn_cons_nth bs i b rest Hi H) as (Hl & Hn & _). unfold bytes_get.
+  destruct (Z.leb_spec 0 i); [|lia]. destruct (Z.ltb_spec i (Z.of_nat (length bs))); [|lia]. cbn [andb]. rewrite Hn. reflexivity.
+Qed.
+
+Lemma ltb_ofN a b : (Z.of_N a <? Z.of_N b) = (a <? b)%N.
+Proof. destruct (Z.ltb_spec (Z.of_N a) (Z.of_N b)); destruct (N.ltb_spec a b); try reflexivity; lia. Qed.
+
+(* ---- the three varint loops *)
+Local Open Scope gname_scope.
+Definition w_env (bs : list byte) (shift wire idx depth : Z) : goenv :=
+  ("shift", GvInt TUint shift) :: ("wire", GvInt TUint64 wire) :: sk_env bs idx depth.
+Local Close Scope gname_scope.
+
+Lemma wire_loop call lf bs depth : Z.of_nat (length bs) < Z.of_N two63 ->
+  forall f LF shift acc cnt idx rest,
+  (f <= 10)%nat -> (f < LF)%nat -> shift = (7 * (10 - N.of_nat f))%N ->
+  0 <= idx -> rest = skipn (Z.to_nat idx) bs -> idx <= Z.of_nat (length bs) ->
+  let r := for_loop G call lf None sk_post (skip_guards ++ skip_accumulate "wire" TUint64) LF
+             (w_env bs (Z.of_N shift) (Z.of_N (u64 acc)) idx depth) in
+  match dec_varint_aux f shift acc cnt rest with
+  | None => is_err_ret bs r
+  | Some (raw, _, rest') =>
+    exists sh, r = SrNext (w_env bs sh (Z.of_N (u64 raw)) (Z.of_nat (length bs) - Z.of_nat (length rest')) depth)
+  end.
+Proof.
+  intros Hlen. induction f as [|f IH]; intros LF shift acc cnt idx rest Hf HLF Hs Hidx Hrest Hle r; subst r;
+    (destruct LF as [|LF]; [lia|]); rewrite for_loop_S; unfold sk_post, skip_guards, skip_accumulate, exec_blk, w_env, sk_env; go.
+  - subst shift. change (Z.of_N (7 * (10 - N.of_nat 0))) with 70. nc. go. rewrite G_overflow. go.
+    eexists. eexists. split; reflexivity.
+  - assert (Hsh : (shift < 64)%N) by lia.
+    assert (H64 : (64 <=? Z.of_N shift) = false) by (apply Z.leb_gt; lia). rewrite H64. go.
+    cbn [dec_varint_aux]. destruct rest as [|b rest'].
+    + assert (Hge : (Z.of_nat (length bs) <=? idx) = true).
+      { apply Z.leb_le. destruct (Z_lt_le_dec idx (Z.of_nat (length bs))) as [Hlt|]; [|lia].
+        exfalso. assert (length (skipn (Z.to_nat idx) bs) = 0%nat) by (rewrite <- Hrest; reflexivity). rewrite skipn_length in H. lia. }
+      rewrite Hge. go. eexists. eexists. split; reflexivity.
+    + symmetry in Hrest. destruct (skipn_cons_nth bs idx b rest' Hidx Hrest) as (Hlt & Hnth & Hrest').
+      assert (Hge : (Z.of_nat (length bs) <=? idx) = false) by (apply Z.leb_gt; lia). rewrite Hge. go.
+      rewrite (bytes_get_in bs idx b rest' Hidx Hrest). go.
+      assert (Hneg : (Z.of_N shift <? 0) = false) by (apply Z.ltb_ge; lia). rewrite Hneg. go.
+      rewrite (wire_update acc b shift Hsh).
+      change 128 with (Z.of_N 128). rewrite ltb_ofN.
+      change (Z.of_N two63) with 9223372036854775808 in Hlen.
+      assert (E2 : ity_norm TInt (idx + 1) = idx + 1) by (rewrite norm_int; apply wrap64_id'; lia). rewrite E2.
+      destruct (b2n b <? 128)%N; go.
+      * exists (Z.of_N shift).
+        replace (Z.of_nat (length bs) - Z.of_nat (length rest')) with (idx + 1); [reflexivity|].
+        rewrite <- Hrest', skipn_length. lia.
+      * assert (E3 : ity_norm TUint (Z.of_N shift + 7) = Z.of_N (shift + 7)).
+        { rewrite norm_uint. rewrite Z.mod_small by lia. lia. }
+        rewrite E3.
+        refine (IH LF (shift + 7)%N _ (S cnt) (idx + 1) rest' _ _ _ _ _ _); try lia. symmetry. exact Hrest'.
+Qed.
+
+Local Open Scope gname_scope.
+Definition l_env (bs : list byte) (shift len wt wire idx depth : Z) : goenv :=
+  ("shift", GvInt TUint shift) :: ("length", GvInt TInt len) :: ("wireType", GvInt TInt wt) :: ("wire", GvInt TUint64 wire)
+  :: sk_env bs idx depth.
+Definition v_env (bs : list byte) (shift wt wire idx depth : Z) : goenv :=
+  ("shift", GvInt TUint shift) :: ("wireType", GvInt TInt wt) :: ("wire", GvInt TUint64 wire) :: sk_env bs idx depth.
+Local Close Scope gname_scope.
+
+Lemma length_loop call lf bs depth wt wire : Z.of_nat (length bs) < Z.of_N two63 ->
+  forall f LF shift acc cnt idx rest,
+  (f <= 10)%nat -> (f < LF)%nat -> shift = (7 * (10 - N.of_nat f))%N ->
+  0 <= idx -> rest = skipn (Z.to_nat idx) bs -> idx <= Z.of_nat (length bs) ->
+  let r := for_loop G call lf None sk_post (skip_guards ++ skip_accumulate "length" TInt) LF
+             (l_env bs (Z.of_N shift) (s64 acc) wt wire idx depth) in
+  match dec_varint_aux f shift acc cnt rest with
+  | None => is_err_ret bs r
+  | Some (raw, _, rest') =>
+    exists sh, r = SrNext (l_env bs sh (s64 raw) wt wire (Z.of_nat (length bs) - Z.of_nat (length rest')) depth)
+  end.
+Proof.
+  intros Hlen. induction f as [|f IH]; intros LF shift acc cnt idx rest Hf HLF Hs Hidx Hrest Hle r; subst r;
+    (destruct LF as [|LF]; [lia|]); rewrite for_loop_S; unfold sk_post, skip_guards, skip_accumulate, exec_blk, l_env, sk_env; go.
+  - subst shift. change (Z.of_N (7 * (10 - N.of_nat 0))) with 70. nc. go. rewrite G_overflow. go.
+    eexists. eexists. split; reflexivity.
+  - assert (Hsh : (shift < 64)%N) by lia.
+    assert (H64 : (64 <=? Z.of_N shift) = false) by (apply Z.leb_gt; lia). rewrite H64. go.
+    cbn [dec_varint_aux]. destruct rest as [|b rest'].
+    + assert (Hge : (Z.of_nat (length bs) <=? idx) = true).
+      { apply Z.leb_le. destruct (Z_lt_le_dec idx (Z.of_nat (length bs))) as [Hlt|]; [|lia].
+        exfalso. assert (length (skipn (Z.to_nat idx) bs) = 0%nat) by (rewrite <- Hrest; reflexivity). rewrite skipn_length in H. lia. }
+      rewrite Hge. go. eexists. eexists. split; reflexivity.
+    + symmetry in Hrest. destruct (skipn_cons_nth bs idx b rest' Hidx Hrest) as (Hlt & Hnth & Hrest').
+      assert (Hge : (Z.of_nat (length bs) <=? idx) = false) by (apply Z.leb_gt; lia). rewrite Hge. go.
+      rewrite (bytes_get_in bs idx b rest' Hidx Hrest). go.
+      assert (Hneg : (Z.of_N shift <? 0) = false) by (apply Z.ltb_ge; lia). rewrite Hneg. go.
+      rewrite (length_update acc b shift Hsh).
+      change 128 with (Z.of_N 128). rewrite ltb_ofN.
+      change (Z.of_N two63) with 9223372036854775808 in Hlen.
+      assert (E2 : ity_norm TInt (idx + 1) = idx + 1) by (rewrite norm_int; apply wrap64_id'; lia). rewrite E2.
+      destruct (b2n b <? 128)%N; go.
+      * exists (Z.of_N shift).
+        replace (Z.of_nat (length bs) - Z.of_nat (length rest')) with (idx + 1); [reflexivity|].
+        rewrite <- Hrest', skipn_length. lia.
+      * assert (E3 : ity_norm TUint (Z.of_N shift + 7) = Z.of_N (shift + 7)).
+        { rewrite norm_uint. rewrite Z.mod_small by lia. lia. }
+        rewrite E3.
+        refine (IH LF (shift + 7)%N _ (S cnt) (idx + 1) rest' _ _ _ _ _ _); try lia. symmetry. exact Hrest'.
+Qed.
+
+(* case 0: only the continuation bits are read *)
+Definition sk_vbody : list gstmt :=
+  [StInc (LvVar "iNdEx");
+   StIf (ExBin BLt (ExIndex (ExVar "dAtA") (ExBin BSub (ExVar "iNdEx") (ExConst 1))) (ExConst 128)) [StBreak] []].
+Lemma varint_loop call lf bs depth wt wire : Z.of_nat (length bs) < Z.of_N two63 ->
+  forall f LF shift cnt idx rest,
+  (f <= 10)%nat -> (f < LF)%nat -> shift = (7 * (10 - N.of_nat f))%N ->
+  0 <= idx -> rest = skipn (Z.to_nat idx) bs -> idx <= Z.of_nat (length bs) ->
+  let r := for_loop G call lf None sk_post (skip_guards ++ sk_vbody) LF (v_env bs (Z.of_N shift) wt wire idx depth) in
+  match skip_varint_aux f cnt rest with
+  | None => is_err_ret bs r
+  | Some (_, rest') =>
+    exists sh, r = SrNext (v_env bs sh wt wire (Z.of_nat (length bs) - Z.of_nat (length rest')) depth)
+  end.
+Proof.
+  intros Hlen. induction f as [|f IH]; intros LF shift cnt idx rest Hf HLF Hs Hidx Hrest Hle r; subst r;
+    (destruct LF as [|LF]; [lia|]); rewrite for_loop_S; unfold sk_post, skip_guards, sk_vbody, exec_blk, v_env, sk_env; go.
+  - subst shift. change (Z.of_N (7 * (10 - N.of_nat 0))) with 70. nc. go. rewrite G_overflow. go.
+    eexists. eexists. split; reflexivity.
+  - assert (Hsh : (shift < 64)%N) by lia.
+    assert (H64 : (64 <=? Z.of_N shift) = false) by (apply Z.leb_gt; lia). rewrite H64. go.
+    cbn [skip_varint_aux]. destruct rest as [|b rest'].
+    + assert (Hge : (Z.of_nat (length bs) <=? idx) = true).
+      { apply Z.leb_le. destruct (Z_lt_le_dec idx (Z.of_nat (length bs))) as [Hlt|]; [|lia].
+        exfalso. assert (length (skipn (Z.to_nat idx) bs) = 0%nat) by (rewrite <- Hrest; reflexivity). rewrite skipn_length in H. lia. }
+      rewrite Hge. go. eexists. eexists. split; reflexivity.
+    + symmetry in Hrest. destruct (skipn_cons_nth bs idx b rest' Hidx Hrest) as (Hlt & Hnth & Hrest').
+      assert (Hge : (Z.of_nat (length bs) <=? idx) = false) by (apply Z.leb_gt; lia). rewrite Hge. go.
+      change (Z.of_N two63) with 9223372036854775808 in Hlen.
+      assert (E2 : ity_norm TInt (idx + 1) = idx + 1) by (rewrite norm_int; apply wrap64_id'; lia). rewrite E2.
+      assert (E4 : ity_norm TInt (idx + 1 - 1) = idx) by (rewrite norm_int; rewrite wrap64_id' by lia; lia). rewrite E4.
+      rewrite (bytes_get_in bs idx b rest' Hidx Hrest). go.
+      change 128 with (Z.of_N 128). rewrite ltb_ofN.
+      destruct (b2n b <? 128)%N; go.
+      * exists (Z.of_N shift).
+        replace (Z.of_nat (length bs) - Z.of_nat (length rest')) with (idx + 1); [reflexivity|].
+        rewrite <- Hrest', skipn_length. lia.
+      * assert (E3 : ity_norm TUint (Z.of_N shift + 7) = Z.of_N (shift + 7)).
+        { rewrite norm_uint. rewrite Z.mod_small by lia. lia. }
+        rewrite E3.
+        refine (IH LF (shift + 7)%N (S cnt) (idx + 1) rest' _ _ _ _ _ _); try lia. symmetry. exact Hrest'.
 Qed.
